@@ -31,6 +31,10 @@ type NestedOpt struct {
 	// second-directory-without-links | second-directory-differs
 	CoSub string
 	Entry int // 0 InTotoVerify, 1 InTotoVerifyWithDirectory (not used by the builder)
+	// RelLinks: verification is started in the link directory with an empty link-directory argument (not used by the builder)
+	RelLinks bool
+	// CoDiffers: with CoThreshold 2, the co-functionary's plain link reports another product than the sublayout's summary
+	CoDiffers bool
 }
 
 type Nested struct {
@@ -128,7 +132,11 @@ func (n *Nested) level(base string, l int, dir string, signer *K, stepNameForSum
 		sb.PubKeys = append(sb.PubKeys, co.ID)
 		sb.Threshold = o.CoThreshold
 		// the co-functionary reports what the summary of the sublayout reports
-		DumpLink(dir, "b", co.ID, MustWrap(Link("b", xArt(1), yArt(o.Depth), "make-y-directly"), o.DSSE, co.Full))
+		coProducts := yArt(o.Depth)
+		if o.CoDiffers {
+			coProducts = Arts("y", H(0xdc))
+		}
+		DumpLink(dir, "b", co.ID, MustWrap(Link("b", xArt(1), coProducts, "make-y-directly"), o.DSSE, co.Full))
 	}
 	if l < o.Depth {
 		deleg := fb
